@@ -20,7 +20,7 @@ META = dict(
          "every row time+12h, last+1d} (closed, half-open, empty, inverted, rows exactly on starting and on ending), "
          "streams {v} and {v,w}, test sets {probe}, {spike, rate_of_change}, {probe, depth-banded climatology, location}; "
          "two-context programs over every ordered pair of windows from a coarse grid; three-context programs A,B,A (the "
-         "same window in two non-adjacent places); tables with a missing (NaT) time; a test configured on the depth column itself; one Config object run "
+         "same window in two non-adjacent places); tables with a missing (NaT) time and with repeated timestamps; a test configured on the depth column itself; one Config object run "
          "first on data lacking a configured stream and then on complete data; window bounds as ISO strings and "
          "datetime objects; front ends: PandasStream (RangeIndex / shifted ints / DatetimeIndex / repeated labels), NumpyStream (ndarray / "
          "dict), XarrayStream (time as dimension coordinate / as data variable / from a NetCDF-3 file path), NetcdfStream (in-memory Dataset / file path), QcConfig.run. Oracle per "
@@ -102,7 +102,7 @@ def check_case(case):
     S.install_probes()
     if case.get("reuse"):
         return check_reuse(case)
-    tab = S.table(case["n"], case["z"], case["ll"], case.get("shuffled", False), case.get("nat", False))
+    tab = S.table(case["n"], case["z"], case["ll"], case.get("shuffled", False), case.get("nat", False), case.get("duptime", False))
     fe = case["fe"]
     contexts = case["contexts"]
     cfgd = S.make_config(contexts, case.get("style", "str"))
@@ -397,6 +397,11 @@ def run_task(task, acc):
             if n >= 2 and ts_name == "probe" and fe != "xarray:coord":
                 # a row whose time is missing (NaT) satisfies no window bound
                 yield dict(n=n, z=need["z"], ll=need["ll"], fe=fe, contexts=ctxs, style=style, testset=ts_name, nat=True)
+            if n >= 2 and ts_name in ("probe", "neigh"):
+                # repeated timestamps (in increasing and in shuffled order)
+                yield dict(n=n, z=need["z"], ll=need["ll"], fe=fe, contexts=ctxs, style=style, testset=ts_name, duptime=True)
+                if n >= 3:
+                    yield dict(n=n, z=need["z"], ll=need["ll"], fe=fe, contexts=ctxs, style=style, testset=ts_name, duptime=True, shuffled=True)
             if n >= 3 and ts_name in ("probe_z", "neigh"):
                 # the same program on a table whose time column is not monotonic
                 yield dict(n=n, z=need["z"], ll=need["ll"], fe=fe, contexts=ctxs, style=style, testset=ts_name, shuffled=True)
